@@ -227,11 +227,17 @@ def load_hdf5(path, meta_only=False):
     # temporary directory for original data
     tdir = tempfile.mkdtemp(prefix="nanite_rate_data_")
     with h5py.File(path, mode="r") as h5:
+        if "analysis" not in h5 or "data" not in h5:
+            # nothing has been stored (successfully) yet
+            return ratings
         if not meta_only:
             # extract experimental data
             dataset_dict = {}
             for dkey in h5["data"]:
                 dset = h5["data"][dkey]
+                if "path" not in dset.attrs:
+                    warnings.warn(f"Ignoring incomplete data '{dkey}'!")
+                    continue
                 dbin = dset[...]
                 name = dkey + "_" + pathlib.Path(dset.attrs["path"]).name
                 dpath = pathlib.Path(tdir) / name
@@ -240,10 +246,12 @@ def load_hdf5(path, meta_only=False):
         # load individual curves
         for akey in h5["analysis"]:
             h5gr = h5["analysis"][akey]
-            if "fit" not in h5gr:
+            attrs = h5gr.attrs
+            if not _hdf5_rating_complete(h5gr) or (
+                    not meta_only
+                    and attrs["data hash"] not in dataset_dict):
                 warnings.warn(f"Ignoring incomplete '{akey}'!")
                 continue
-            attrs = h5gr.attrs
             if not meta_only:
                 indent = dataset_dict[attrs["data hash"]].get_enum(
                     attrs["data enum"])
@@ -287,6 +295,19 @@ def load_hdf5(path, meta_only=False):
     return ratings
 
 
+def _hdf5_rating_complete(h5group):
+    """Whether an analysis group holds everything that `save_hdf5` writes"""
+    for col in ["fit", "fit range", "force", "fit residuals",
+                "tip position", "segment"]:
+        if col not in h5group:
+            return False
+    for key in ["data enum", "data hash",
+                "user comment", "user name", "user rate"]:
+        if key not in h5group.attrs:
+            return False
+    return True
+
+
 def save_hdf5(h5path, indent, user_rate, user_name, user_comment, h5mode="a"):
     """Store all relevant data of a user rating into an hdf5 file
 
@@ -308,16 +329,28 @@ def save_hdf5(h5path, indent, user_rate, user_name, user_comment, h5mode="a"):
         # store raw experimental data as binary array
         data = h5.require_group("data")
         dhash = hash_file(indent.path)
+        if dhash in data and "path" not in data[dhash].attrs:
+            # remains of an interrupted save
+            del data[dhash]
         if dhash not in data:
-            meas = data.create_dataset(
-                dhash,
-                data=np.fromfile(str(indent.path), dtype=bool),
-                **dkw
-            )
-            meas.attrs["path"] = str(indent.path)
+            try:
+                meas = data.create_dataset(
+                    dhash,
+                    data=np.fromfile(str(indent.path), dtype=bool),
+                    **dkw
+                )
+                meas.attrs["path"] = str(indent.path)
+            except BaseException:
+                # do not leave an incomplete dataset behind
+                if dhash in data:
+                    del data[dhash]
+                raise
         # store indentation data along with the user rate
         ana = h5.require_group("analysis")
         idd = "{}_{}".format(dhash, indent.enum)
+        if idd in ana and not _hdf5_rating_complete(ana[idd]):
+            # remains of an interrupted save
+            del ana[idd]
         if idd in ana:
             # Only allow overriding of user data if fit matches.
             # Otherwise, the rating might be wrong.
@@ -336,48 +369,51 @@ def save_hdf5(h5path, indent, user_rate, user_name, user_comment, h5mode="a"):
                                  "same rating container!")
             out = ana[idd]
         else:
-            out = ana.create_group(idd)
-            out.attrs["data enum"] = indent.enum
-            out.attrs["data hash"] = dhash
-            for key in indent.fit_properties:
-                val = indent.fit_properties[key]
-                if key.startswith("params_"):
-                    val = val.dumps()
-                elif key == "preprocessing":
-                    val = ",".join(val)
-                elif key in ["preprocessing_options", "method_kws"]:
-                    val = json.dumps(val)
-                elif key == "range_x":
-                    val = str(val)
-                out.attrs["fit {}".format(key)] = val
+            try:
+                out = ana.create_group(idd)
+                out.attrs["data enum"] = indent.enum
+                out.attrs["data hash"] = dhash
+                for key in indent.fit_properties:
+                    val = indent.fit_properties[key]
+                    if key.startswith("params_"):
+                        val = val.dumps()
+                    elif key == "preprocessing":
+                        val = ",".join(val)
+                    elif key in ["preprocessing_options", "method_kws"]:
+                        val = json.dumps(val)
+                    elif key == "range_x":
+                        val = str(val)
+                    out.attrs["fit {}".format(key)] = val
 
-            out.create_dataset("fit",
-                               data=indent["fit"][...],
-                               **dkw)
-            out.create_dataset("fit range",
-                               data=indent["fit range"][...],
-                               **dkw)
-            out.create_dataset("force",
-                               data=indent["force"][...],
-                               **dkw)
-            out.create_dataset("fit residuals",
-                               data=indent["fit residuals"][...],
-                               **dkw)
-            out.create_dataset("tip position",
-                               data=indent["tip position"][...],
-                               **dkw)
-            out.create_dataset("segment",
-                               data=indent["segment"][...],
-                               **dkw)
-        # update user data in any case
-        out.attrs["user comment"] = user_comment
-        out.attrs["user name"] = user_name
-        out.attrs["user rate"] = user_rate
-        out.attrs["user time"] = time.time()
-        out.attrs["user time str"] = time.ctime()
-        # add library versions for debugging
-        out.attrs["nanite version"] = nanite_version
-        out.attrs["h5py version"] = h5py.__version__
+                for col in ["fit", "fit range", "force", "fit residuals",
+                            "tip position", "segment"]:
+                    out.create_dataset(col,
+                                       data=indent[col][...],
+                                       **dkw)
+                _save_hdf5_user_data(out, user_rate, user_name,
+                                     user_comment)
+            except BaseException:
+                # A partially written group would make the rating
+                # container unreadable and would prevent storing this
+                # curve again.
+                if idd in ana:
+                    del ana[idd]
+                raise
+            return
+        # update user data of the existing rating
+        _save_hdf5_user_data(out, user_rate, user_name, user_comment)
+
+
+def _save_hdf5_user_data(out, user_rate, user_name, user_comment):
+    """Write the user rating to the HDF5 group `out`"""
+    out.attrs["user comment"] = user_comment
+    out.attrs["user name"] = user_name
+    out.attrs["user rate"] = user_rate
+    out.attrs["user time"] = time.time()
+    out.attrs["user time str"] = time.ctime()
+    # add library versions for debugging
+    out.attrs["nanite version"] = nanite_version
+    out.attrs["h5py version"] = h5py.__version__
 
 
 def hdf5_rated(h5path, indent):
@@ -397,7 +433,7 @@ def hdf5_rated(h5path, indent):
                 ana = h5["analysis"]
                 dhash = hash_file(indent.path)
                 idd = "{}_{}".format(dhash, indent.enum)
-                if idd in ana:
+                if idd in ana and _hdf5_rating_complete(ana[idd]):
                     is_rated = True
                     rating = ana[idd].attrs["user rate"]
                     comment = ana[idd].attrs["user comment"]
